@@ -30,17 +30,17 @@
      the parenthesis state follow;
    * records assembled from these, with TTL and class each written or omitted, in either order (context
      defaults: `$TTL` default before previous TTL; previous class), owner absolute / relative /
-     `@` / omitted (leading blanks ⇒ previous owner); the gaps before, inside and after the RDATA
-     general (so records may span lines in parentheses, the usual `SOA ( … )` style included);
+     `@` / omitted (a leading blank ⇒ previous owner); all gaps of a record general (so records
+     may span lines in parentheses opened anywhere, the usual `SOA ( … )` style included);
      `$ORIGIN` and `$TTL` directive lines; blank and comment-only lines; every line ending LF or
      CRLF;
    * whole files of such entries: exactly the denoted records, in order, with line numbers
      (`C23_records_partial`).
   NOT PROVED (the gap; the name says `_partial`)
      the typed RDATA syntaxes of AAAA, WKS and Chaosnet A (not in the presentation AST: in the
-     subset they can be written in `\#` form); parentheses (and therefore line ends) *before the
-     type field* of a record or inside directives — there the fields are separated by blanks
-     only; a last line without newline.  These are covered on every run by the correspondence
+     subset they can be written in `\#` form); parentheses (and therefore line ends) inside
+     directive lines — there the fields are separated by blanks only; a last line without
+     newline.  These are covered on every run by the correspondence
      oracle, which is independent of these proofs: the harness's pretty-printer renders random
      record lists with random choices for *all* of the above and the expected parse is the
      generating record list (op `zfp`, spec column = expected records).
@@ -195,32 +195,35 @@ private def sQ : PString := ⟨true, [(97, .raw), (10, .raw), (98, .raw), (34, .
 private def sU : PString := ⟨false, [(99, .raw), (59, .esc), (100, .raw)]⟩
 private def sD : PString := ⟨false, [(100, .dec)]⟩
 
-/-- `$ORIGIN t.` / `a\.b.\010c. iN 5 TYPE1 \# 4 01020304 ;x` / (blank) / ` TYPE16 \# 2 0161` /
-    `$TTL 9` / `w CLASS3 TYPE99 \# 0` / `@ Ns a` / ` mx 10 m\\\<newline>.\120.` (two lines) /
-    ` SOA @ a 1 2 3 4 4294967295` / `a 7 iN Srv 1 2 3 @` / ` MINFO a m\\\<newline>.\120. ;` /
-    ` a 192.0.2.1` / ` txt "a<newline>b\"" c\;d \100` (two lines) / ` Hinfo "" \100` -/
+/-- the text (`¶` = LF, `¬` = CRLF, `→` = tab):
+    `$ORIGIN t.¶` `a\.b.\010c. iN 5 TYPE1 \# 4 01020304 ;x¬` `→¬` ` →TYPE16→\#(2;h¶ 0161)¶` `$TTL 9¬`
+    `w CLASS3 TYPE99 \# 0¶` `@ Ns a¶` ` mx 10 m\\\¶.\120.¶` ` SOA @ a ( 1 ;s¬ 2¶→3 4 4294967295 ) ;d¶`
+    `a→( 7;¶→iN ) Srv 1 2 3 @¶` ` MINFO a m\\\¶.\120. ;¶` ` a (192.0.2.1)¬` ` (txt "a¶b\"" c\;d¬ \100)¶`
+    ` Hinfo "" \100¶` -/
 def exFile : List PEntry :=
   [.origin [[(116, .raw)]] [32] [] [] false,
    .record ⟨.named (.abs [[(97, .raw), (46, .esc), (98, .raw)], [(10, .dec), (99, .raw)]]), some 5,
-      some (.mnemonic [105, 78] 1), true, .generic 1, .generic [1, 2, 3, 4], [32], [], [.blank false], [59, 120], true⟩,
+      some (.mnemonic [105, 78] 1), true, .generic 1, .generic [1, 2, 3, 4], [], [], [.blank false], [59, 120], true⟩,
    .blank [9] [] true,
-   .record ⟨.same, none, none, false, .generic 16, .generic [1, 97], [32, 9],
+   .record ⟨.same, none, none, false, .generic 16, .generic [1, 97], [[.blank false, .blank true]],
       [[.blank true], [.openParen], [.newline [59, 104] false, .blank false]], [.closeParen], [], false⟩,
    .ttl 9 [32] [] [] true,
-   .record ⟨.named (.rel [] [(119, .raw)]), none, some (.generic 3), false, .generic 99, .generic [], [32], [], [], [], false⟩,
-   .record ⟨.named .atSign, none, none, true, .mnemonic [78, 115] 2, .name nA, [32], [], [], [], false⟩,
-   .record ⟨.same, none, none, true, .mnemonic [109, 120] 15, .mx 10 nMail, [32], [], [], [], false⟩,
-   .record ⟨.same, none, none, true, .mnemonic [83, 79, 65] 6, .soa .atSign nA 1 2 3 4 4294967295, [32],
+   .record ⟨.named (.rel [] [(119, .raw)]), none, some (.generic 3), false, .generic 99, .generic [], [], [], [], [], false⟩,
+   .record ⟨.named .atSign, none, none, true, .mnemonic [78, 115] 2, .name nA, [], [], [], [], false⟩,
+   .record ⟨.same, none, none, true, .mnemonic [109, 120] 15, .mx 10 nMail, [], [], [], [], false⟩,
+   .record ⟨.same, none, none, true, .mnemonic [83, 79, 65] 6, .soa .atSign nA 1 2 3 4 4294967295, [],
       [[.blank false], [.blank false], [.blank false, .openParen, .blank false],
        [.blank false, .newline [59, 115] true, .blank false], [.newline [] false, .blank true]],
       [.blank false, .closeParen, .blank false], [59, 100], false⟩,
    .record ⟨.named nA, some 7, some (.mnemonic [105, 78] 1), false, .mnemonic [83, 114, 118] 33,
-      .srv 1 2 3 .atSign, [9], [], [], [], false⟩,
-   .record ⟨.same, none, none, true, .mnemonic [77, 73, 78, 70, 79] 14, .minfo nA nMail, [32], [], [.blank false], [59], false⟩,
-   .record ⟨.same, none, none, true, .mnemonic [97] 1, .a 192 0 2 1, [32], [[.blank false, .openParen]], [.closeParen], [], true⟩,
-   .record ⟨.same, none, none, true, .mnemonic [116, 120, 116] 16, .txt sQ [sU, sD], [32],
-      [[.blank false, .openParen, .blank false], [.blank false], [.newline [] true, .blank false]], [.closeParen], [], false⟩,
-   .record ⟨.same, none, none, true, .mnemonic [72, 105, 110, 102, 111] 13, .hinfo ⟨true, []⟩ sD, [32], [], [], [], false⟩]
+      .srv 1 2 3 .atSign,
+      [[.blank true, .openParen, .blank false], [.newline [59] false, .blank true], [.blank false, .closeParen, .blank false]],
+      [], [], [], false⟩,
+   .record ⟨.same, none, none, true, .mnemonic [77, 73, 78, 70, 79] 14, .minfo nA nMail, [], [], [.blank false], [59], false⟩,
+   .record ⟨.same, none, none, true, .mnemonic [97] 1, .a 192 0 2 1, [], [[.blank false, .openParen]], [.closeParen], [], true⟩,
+   .record ⟨.same, none, none, true, .mnemonic [116, 120, 116] 16, .txt sQ [sU, sD], [[.blank false, .openParen]],
+      [[.blank false], [.blank false], [.newline [] true, .blank false]], [.closeParen], [], false⟩,
+   .record ⟨.same, none, none, true, .mnemonic [72, 105, 110, 102, 111] 13, .hinfo ⟨true, []⟩ sD, [], [], [], [], false⟩]
 
 /-- the example file is well-formed and denotes eleven records -/
 theorem exFile_ok :
@@ -234,10 +237,10 @@ theorem exFile_ok :
             ⟨11, [1, 116, 0], 9, 3, 6, [1, 116, 0, 1, 97, 1, 116, 0, 0, 0, 0, 1, 0, 0, 0, 2, 0, 0, 0, 3,
               0, 0, 0, 4, 255, 255, 255, 255]⟩,
             ⟨14, [1, 97, 1, 116, 0], 7, 1, 33, [0, 1, 0, 2, 0, 3, 1, 116, 0]⟩,
-            ⟨15, [1, 97, 1, 116, 0], 9, 1, 14, [1, 97, 1, 116, 0, 3, 109, 92, 10, 1, 120, 0]⟩,
-            ⟨17, [1, 97, 1, 116, 0], 9, 1, 1, [192, 0, 2, 1]⟩,
-            ⟨18, [1, 97, 1, 116, 0], 9, 1, 16, [4, 97, 10, 98, 34, 3, 99, 59, 100, 1, 100]⟩,
-            ⟨21, [1, 97, 1, 116, 0], 9, 1, 13, [0, 1, 100]⟩] := by
+            ⟨16, [1, 97, 1, 116, 0], 9, 1, 14, [1, 97, 1, 116, 0, 3, 109, 92, 10, 1, 120, 0]⟩,
+            ⟨18, [1, 97, 1, 116, 0], 9, 1, 1, [192, 0, 2, 1]⟩,
+            ⟨19, [1, 97, 1, 116, 0], 9, 1, 16, [4, 97, 10, 98, 34, 3, 99, 59, 100, 1, 100]⟩,
+            ⟨22, [1, 97, 1, 116, 0], 9, 1, 13, [0, 1, 100]⟩] := by
   refine ⟨?_, by decide +kernel⟩
   have wfA : WFName nA := by unfold nA WFName; exact ⟨by decide, by simp [LabelsOK, labelOctets], by decide⟩
   have wfMail : WFName nMail := by
@@ -248,42 +251,42 @@ theorem exFile_ok :
   simp only [exFile, List.mem_cons, List.mem_nil_iff, or_false] at he
   rcases he with rfl | rfl | rfl | rfl | rfl | rfl | rfl | rfl | rfl | rfl | rfl | rfl | rfl | rfl
   · exact ⟨⟨by simp, by decide, by simp [LabelsOK, labelOctets], by decide⟩, by simp, by decide, by decide, .inl rfl⟩
-  · refine ⟨by simp, by decide, ?_, by decide, ?_,
+  · refine ⟨?_, by decide, ?_,
       ⟨by simp [WFType], by decide, by decide, by decide⟩, by simp [WFRdata], gaps_ok_of_B _ (by decide)⟩
     · intro n hn; cases hn
       exact ⟨⟨by simp, by decide, by simp [LabelsOK, labelOctets], by decide⟩, by decide⟩
     · intro c hc; cases hc; exact mIN
   · exact ⟨by decide, .inl rfl⟩
-  · exact ⟨by simp, by decide, noOwner, by decide, (by intro c hc; cases hc),
+  · exact ⟨noOwner, by decide, (by intro c hc; cases hc),
       ⟨by simp [WFType], by decide, by decide, by decide⟩, by simp [WFRdata], gaps_ok_of_B _ (by decide)⟩
   · exact ⟨by decide, by simp, by decide, by decide, .inl rfl⟩
-  · refine ⟨by simp, by decide, ?_, by decide, ?_,
+  · refine ⟨?_, by decide, ?_,
       ⟨by simp [WFType], by decide, by decide, by decide⟩, by simp [WFRdata], gaps_ok_of_B _ (by decide)⟩
     · intro n hn; cases hn
       exact ⟨⟨by decide, by simp [LabelsOK, labelOctets], by decide⟩, by decide⟩
     · intro c hc; cases hc; exact (by decide : (3 : Nat) ≤ 65535)
-  · refine ⟨by simp, by decide, ?_, by decide, (by intro c hc; cases hc),
+  · refine ⟨?_, by decide, (by intro c hc; cases hc),
       ⟨mNs, by decide, by decide, by decide⟩, ⟨wfA, by decide⟩, gaps_ok_of_B _ (by decide)⟩
     intro n hn; cases hn; exact ⟨trivial, by decide⟩
-  · exact ⟨by simp, by decide, noOwner, by decide, (by intro c hc; cases hc),
+  · exact ⟨noOwner, by decide, (by intro c hc; cases hc),
       ⟨mMx, by decide, by decide, by decide⟩, ⟨by decide, wfMail⟩, gaps_ok_of_B _ (by decide)⟩
-  · exact ⟨by simp, by decide, noOwner, by decide, (by intro c hc; cases hc),
+  · exact ⟨noOwner, by decide, (by intro c hc; cases hc),
       ⟨mSoa, by decide, by decide, by decide⟩,
       ⟨trivial, wfA, by decide, by decide, by decide, by decide, by decide, by decide⟩, gaps_ok_of_B _ (by decide)⟩
-  · refine ⟨by simp, by decide, ?_, by decide, ?_,
+  · refine ⟨?_, by decide, ?_,
       ⟨mSrv, by decide, by decide, by decide⟩, ⟨by decide, by decide, by decide, trivial⟩, gaps_ok_of_B _ (by decide)⟩
     · intro n hn; cases hn; exact ⟨wfA, by decide⟩
     · intro c hc; cases hc; exact mIN
-  · exact ⟨by simp, by decide, noOwner, by decide, (by intro c hc; cases hc),
+  · exact ⟨noOwner, by decide, (by intro c hc; cases hc),
       ⟨mMinfo, by decide, by decide, by decide⟩, ⟨wfA, wfMail, by decide⟩, gaps_ok_of_B _ (by decide)⟩
-  · exact ⟨by simp, by decide, noOwner, by decide, (by intro c hc; cases hc),
+  · exact ⟨noOwner, by decide, (by intro c hc; cases hc),
       ⟨mA, by decide, by decide, by decide⟩, ⟨by decide, by decide, by decide, by decide⟩, gaps_ok_of_B _ (by decide)⟩
-  · refine ⟨by simp, by decide, noOwner, by decide, (by intro c hc; cases hc),
+  · refine ⟨noOwner, by decide, (by intro c hc; cases hc),
       ⟨mTxt, by decide, by decide, by decide⟩, ⟨?_, by decide, by decide⟩, gaps_ok_of_B _ (by decide)⟩
     intro x hx
     simp only [List.mem_cons, List.mem_nil_iff, or_false] at hx
     rcases hx with rfl | rfl | rfl <;> exact ⟨by decide, by decide, by decide⟩
-  · exact ⟨by simp, by decide, noOwner, by decide, (by intro c hc; cases hc),
+  · exact ⟨noOwner, by decide, (by intro c hc; cases hc),
       ⟨mHinfo, by decide, by decide, by decide⟩,
       ⟨⟨by decide, by decide, by decide⟩, ⟨by decide, by decide, by decide⟩, by decide⟩, gaps_ok_of_B _ (by decide)⟩
 
@@ -297,10 +300,10 @@ example : parseAll (renderFile exFile) {} =
      .item (.record 11 ⟨[1, 116, 0], 9, 3, 6, [1, 116, 0, 1, 97, 1, 116, 0, 0, 0, 0, 1, 0, 0, 0, 2, 0, 0, 0, 3,
               0, 0, 0, 4, 255, 255, 255, 255]⟩),
      .item (.record 14 ⟨[1, 97, 1, 116, 0], 7, 1, 33, [0, 1, 0, 2, 0, 3, 1, 116, 0]⟩),
-     .item (.record 15 ⟨[1, 97, 1, 116, 0], 9, 1, 14, [1, 97, 1, 116, 0, 3, 109, 92, 10, 1, 120, 0]⟩),
-     .item (.record 17 ⟨[1, 97, 1, 116, 0], 9, 1, 1, [192, 0, 2, 1]⟩),
-     .item (.record 18 ⟨[1, 97, 1, 116, 0], 9, 1, 16, [4, 97, 10, 98, 34, 3, 99, 59, 100, 1, 100]⟩),
-     .item (.record 21 ⟨[1, 97, 1, 116, 0], 9, 1, 13, [0, 1, 100]⟩)] := by
+     .item (.record 16 ⟨[1, 97, 1, 116, 0], 9, 1, 14, [1, 97, 1, 116, 0, 3, 109, 92, 10, 1, 120, 0]⟩),
+     .item (.record 18 ⟨[1, 97, 1, 116, 0], 9, 1, 1, [192, 0, 2, 1]⟩),
+     .item (.record 19 ⟨[1, 97, 1, 116, 0], 9, 1, 16, [4, 97, 10, 98, 34, 3, 99, 59, 100, 1, 100]⟩),
+     .item (.record 22 ⟨[1, 97, 1, 116, 0], 9, 1, 13, [0, 1, 100]⟩)] := by
   rw [C23_records_partial exFile exFile_ok.1 {} CtxWF_default _ exFile_ok.2]
   rfl
 
@@ -329,7 +332,7 @@ example : parseRdata { origin := some [1, 116, 0] } 1 15
   simpa [rdataLines, gapLines, nameLines, nA, labelLines] using h
 
 private def exRec : PRecord :=
-  ⟨.same, none, none, true, .mnemonic [109, 120] 15, .mx 10 nA, [32], [[.blank false, .openParen]],
+  ⟨.same, none, none, true, .mnemonic [109, 120] 15, .mx 10 nA, [], [[.blank false, .openParen]],
     [.newline [] true, .closeParen], [], false⟩
 
 /-- one record: ` mx (10 a<CRLF>)<LF>` with previous owner `t.`, TTL 9, class 1 — two lines -/
@@ -339,7 +342,7 @@ example : ∃ ctx', parseLine { origin := some [1, 116, 0], prevOwner := some [1
       toSCtx ctx' = ⟨some [1, 116, 0], some [1, 116, 0], some 9, some 1, none⟩ := by
   have hT : NameWF [1, 116, 0] := ⟨[[116]], by simp [LabelsOK], by decide, by decide⟩
   have hwf : WFRecord exRec :=
-    ⟨by simp [exRec], by decide, (by intro n h; cases h), by decide, (by intro c hc; cases hc),
+    ⟨(by intro n h; cases h), by decide, (by intro c hc; cases hc),
       ⟨mMx, by decide, by decide, by decide⟩,
       ⟨by decide, by unfold nA WFName; exact ⟨by decide, by simp [LabelsOK, labelOctets], by decide⟩⟩,
       gaps_ok_of_B _ (by decide)⟩
